@@ -988,3 +988,20 @@ def mon_c19(scripts, stats):
                     exp = 'ok items=%s next=%s total=%s' % (';'.join(r[1] for r in page), rest[0][0].hex() if rest else '', len(rows) if ct else '-')
             if exp is not None and q != exp:
                 yield sc, n, 'C19: query %s answered %r, the registries say %r' % (ty, q[:200], exp[:200])
+
+
+# ---------------- C20 ----------------
+def mon_c20(scripts, stats):
+    for sc, n, inp, cmd, ty, a, pre, obs in walk(scripts):
+        for kind in ('R', 'QR', 'C', 'A', 'V', 'GI', 'XR', 'RT'):
+            for line in obs.get(kind, []):
+                stats['mon_c20_calls'] += 1
+                if line.split(' ')[0] == 'panic':
+                    if kind == 'GI':
+                        continue      # InitGenesis is specified to panic on a zero threshold; not an entry point of this property
+                    if kind in ('XR', 'RT'):
+                        continue      # export of an incomplete store: not reachable from an initialised genesis
+                    if kind == 'QR' and a.get('reverse') == '1' and a.get('key'):
+                        yield sc, n, 'C20: cosmos-sdk query.Paginate panics for a reverse page request whose cursor is the last key (query %s)' % ty
+                    else:
+                        yield sc, n, 'C20: %s %s panicked' % (cmd, ty)
